@@ -242,6 +242,12 @@ func c08(c *Ctx) {
 		scanPath = filepath.Join(shm, "scan.data")
 	}
 
+	// development / replay aid: C08_ONLY=putcrash runs the bitcask-put-crash family alone
+	if os.Getenv("C08_ONLY") == "putcrash" {
+		c08PutCrashFamily(c, filepath.Dir(scanPath))
+		return
+	}
+
 	// ---------- (a) byte level ----------
 	c.Op("headlen", fmt.Sprintf("%d", store.RecordHeadLength))
 	nCases := c.N
@@ -475,6 +481,7 @@ func c08(c *Ctx) {
 	c08QueueTie(c, qbase)
 	c08RemnantFamily(c, qbase)
 	c08RewindTie(c, qbase)
+	c08PutCrashFamily(c, qbase) // crash images INSIDE BitCask.Put (c08_putcrash.go) vs LemoModel.Bitcask
 
 	// ---------- (b) direct oracles on the real store ----------
 	c08Oracles(c, base)
